@@ -754,3 +754,31 @@ def swallow_then_cancel_again_family(thin: int = 1) -> List[dict]:
                                 pool["ccb"] = dict(ccb)
                         cases.append({"pools": [pool], "steps": steps})
     return cases[::thin] if thin > 1 else cases
+
+
+def unlock_while_closing_family(thin: int = 1) -> List[dict]:
+    """unlock() while a gather_and_close() is still waiting (no request is made in that window): the call still ends with the pool closed
+    for good - requests are refused with PoolIsClosed, until_closed() returns:
+
+        spawn ; tick 2 ; gather_and_close ; [until_closed] ; tick a ; unlock ; tick b ; gate_all ; settle ; drain ; <request: refused, closed>"""
+    cases: List[dict] = []
+    for size in (2, None):
+        for kind, extra in (("apply", {"num": 3}), ("map", {"n": 3, "nc": 2})):
+            for place in ("eager", "task"):
+                for re_ in (False, True):
+                    for a, b in itertools.product(range(3), range(2)):
+                        for uc in (False, True):
+                            sp = {"op": "spawn", "pool": 0, "kind": kind, "place": "inline", "worker": {"script": [["wait"]], "fname": "w"}, **extra}
+                            nxt = {"op": "spawn", "pool": 0, "kind": "apply", "num": 1, "place": "inline", "worker": {"script": [], "fname": "x"}}
+                            cl = {"op": "close", "pool": 0, "place": place, **({"re": True} if re_ else {})}
+                            steps = [sp, {"op": "tick", "k": 2}, cl]
+                            if uc:
+                                steps.append({"op": "until_closed", "pool": 0, "place": "task"})
+                            _ticks(steps, a)
+                            steps.append({"op": "unlock", "pool": 0, "place": "inline"})
+                            _ticks(steps, b)
+                            steps += [{"op": "gate_all", "place": "inline"}, {"op": "settle"}]
+                            steps.extend(copy.deepcopy(DRAIN))
+                            steps += [nxt, {"op": "settle"}]
+                            cases.append({"pools": [{"cls": "TaskPool", "size": size}], "steps": steps, "cfg": {"unlock_while_closing": True}})
+    return cases[::thin] if thin > 1 else cases
